@@ -55,8 +55,25 @@ class Ctx:
 
     # ------------------------------------------------------------------ build
     def build_harness(self):
+        global VH
         t = time.time()
         env = dict(os.environ, CARGO_NET_OFFLINE="true")
+        alt = os.environ.get("VERIF_REPO")
+        if alt and os.path.abspath(alt) != "/repo":
+            # development aid (mutant runs while /repo is in use): build a copy of the harness against another checkout
+            tag = hashlib.sha1(os.path.abspath(alt).encode()).hexdigest()[:8]
+            hdir = os.path.join(VERIF, "work", "harness-alt-" + tag)
+            os.makedirs(hdir, exist_ok=True)
+            subprocess.run(["rsync", "-a", "--delete", "--exclude", "target", HARNESS + "/", hdir + "/"], check=True)
+            ct = open(os.path.join(hdir, "Cargo.toml")).read().replace('"/repo/', '"%s/' % os.path.abspath(alt))
+            open(os.path.join(hdir, "Cargo.toml"), "w").write(ct)
+            p = subprocess.run(["cargo", "build", "--profile", "vh", "--offline"], cwd=hdir, env=env,
+                               stdout=subprocess.PIPE, stderr=subprocess.STDOUT, text=True, timeout=1800)
+            if p.returncode != 0:
+                sys.stdout.write(p.stdout[-6000:]); raise ToolError("alt harness build failed")
+            VH = os.path.join(hdir, "target", "vh", "vh")
+            log("[build] ALT harness built against %s in %.1fs" % (alt, time.time() - t))
+            return VH
         lock_src = "/repo/Cargo.lock"
         lock_dst = os.path.join(HARNESS, "Cargo.lock")
         if not os.path.exists(lock_dst) and os.path.exists(lock_src):
